@@ -13,7 +13,7 @@ from __future__ import annotations
 import ast
 
 from ..core import sym, symeval
-from ..core.loader import Project
+from ..core.loader import AnalysisError, Project
 from ..core.values import Arr, Bag, Blocks, Sc, Seq
 from .distances import BN, WS, Run, unmodelled_in
 
@@ -97,11 +97,11 @@ def _matching_value(run: Run):
     return None, None
 
 
-def check_rows(rep, run: Run, D: Blocks, row_entries, cond, raw_r, raw_c, node, what, drop=True):
+def check_rows(rep, run: Run, D: Blocks, row_entries, cond, raw_r, raw_c, node, what, drop=True, sizes=None):
     """row_entries: (col0, col1, col2) expressions; cond: condition under which the row is listed; drop=False when the
     rows are one part of a table whose listing condition is checked for the whole table"""
     fi = run.fi
-    M, N = sym.Size(("rows", run.a)), sym.Size(("rows", run.b))
+    M, N = sizes if sizes is not None else (sym.Size(("rows", run.a)), sym.Size(("rows", run.b)))
     c0, c1, c2 = row_entries
     for e in (c0, c1, c2, cond):
         if unmodelled_in(e):
@@ -492,11 +492,48 @@ def _parts_union(rep, fi, node, conds, raw_r, raw_c, M, N):
 
 
 def check_wasserstein(rep, project):
-    run = Run(project, WS, matching="sym")
+    _check_wasserstein(rep, project, "finite")
+    # the same obligations where the diagrams the matrix is built from are not the diagrams handed in: points with infinite
+    # death were dropped / an empty diagram was replaced by the diagonal point.  The -1 marks and the rows left out must then
+    # follow the sizes of the FILTERED diagrams (the extents of the cross block), not the sizes that came in.
+    from ..core.report import Report
+    for kind in ("dropped", "empty1", "empty2"):
+        pre = Report("C06-" + kind)
+        try:
+            _check_wasserstein(pre, project, kind)
+        except (AnalysisError, KeyError, IndexError, TypeError, AttributeError):
+            continue
+        for r in pre.refutations:
+            if r["rule"] in ("MT-MINUS1", "MT-DROP", "MT-COST"):
+                rep.refuted(r["rule"], project.function(WS), project.function(WS).node, f"[{_KIND_TEXT[kind]}] " + r["reason"],
+                            construct=r["construct"] + f" [{kind}]")
+        if not pre.refutations and not pre.errors:
+            rep.discharged("MT-MINUS1", pre_fi(project), None, f"[{_KIND_TEXT[kind]}] the matching table is indexed by the sizes of the "
+                                                                f"filtered diagrams", nontrivial=False)
+
+
+_KIND_TEXT = {"dropped": "points with infinite death present in both diagrams", "empty1": "first diagram empty",
+              "empty2": "second diagram empty"}
+
+
+def pre_fi(project):
+    return project.function(WS)
+
+
+def _check_wasserstein(rep, project, kind):
+    run = Run(project, WS, matching="sym", kind=kind)
     fi = run.fi
     rep.analysed(fi)
     D = run.cost_matrix()
-    check_nonint(rep, run)
+    if kind == "finite":
+        check_nonint(rep, run)
+    sizes = None
+    if kind != "finite":
+        from .distances import block_roles
+        cross = block_roles(run, D).get("cross") or []
+        if len(cross) != 1:
+            raise AnalysisError("cross block not found")
+        sizes = (sym.sub(cross[0]["r1"], cross[0]["r0"]), sym.sub(cross[0]["c1"], cross[0]["c0"]))
     rev, mv = _matching_value(run)
     if not isinstance(mv, Arr) or mv.ndim != 2 or mv.axes[1][0].concrete != 3:
         rep.unmodelled("MT-COST", fi, rev["node"] if rev else fi.node, f"returned matching is not an (n,3) array: {mv!r}"[:200])
@@ -524,13 +561,13 @@ def check_wasserstein(rep, project):
         return
     raw_r = sym.Opq("lsa_rows", (dep, sym.IV(riv)), uid)
     raw_c = sym.Opq("lsa_cols", (dep, sym.IV(riv)), uid)
-    total = sym.add(sym.Size(("rows", run.a)), sym.Size(("rows", run.b)))
+    total = sym.add(sym.Size(("rows", run.a)), sym.Size(("rows", run.b))) if sizes is None else sym.add(sizes[0], sizes[1])
     psize = sym.Size(parent) if not (isinstance(parent, tuple) and parent and parent[0] == "range") else parent[1]
     if isinstance(parent, tuple) and parent and parent[0] == "range" and sym.equal(parent[1], total):
         rep.discharged("MT-COVER", fi, rev["node"], "rows range over all M+N pairs returned by the solver")
     else:
         rep.refuted("MT-COVER", fi, rev["node"], f"rows range over {parent} instead of the solver's M+N pairs")
-    check_rows(rep, run, D, cols, cond, raw_r, raw_c, rev["node"], "Wasserstein matching row")
+    check_rows(rep, run, D, cols, cond, raw_r, raw_c, rev["node"], "Wasserstein matching row", sizes=sizes)
 
 
 # ---------------------------------------------------------------------------------------------------------------------------
